@@ -627,10 +627,8 @@ func (s *session) verifySelect(msg *Message, checkTooHigh bool, checkTooLow bool
 		return reject
 	}
 
-	switch s.stateMachine.State.(type) {
-	case resendState:
-		//Don't check staleness of a replay
-	default:
+	if _, recovering := s.currentResendState(); !recovering {
+		// Don't check staleness of a replay.
 		if reject := s.checkSendingTime(msg); reject != nil {
 			return reject
 		}
@@ -652,6 +650,20 @@ func (s *session) verifySelect(msg *Message, checkTooHigh bool, checkTooLow bool
 	}
 
 	return nil
+}
+
+// currentResendState returns the resend state the session is in, also while a test request is pending on top of it.
+func (s *session) currentResendState() (resendState, bool) {
+	switch state := s.stateMachine.State.(type) {
+	case resendState:
+		return state, true
+	case pendingTimeout:
+		if inner, ok := state.sessionState.(resendState); ok {
+			return inner, true
+		}
+	}
+
+	return resendState{}, false
 }
 
 func (s *session) verifyMsgAgainstAppImpl(msg *Message) MessageRejectError {
